@@ -34,7 +34,7 @@ func accessoryBase(obj interface{}) *accessory.Accessory {
 
 // buildWord builds the container of a construction word. variant selects which library constructor stands in for the
 // abstract accessories (-1: plain accessory.New).
-func buildWord(steps []idStep, variant int) (c *accessory.Container, accepted []*accessory.Accessory, panicked bool) {
+func buildWord(steps []idStep, variant int) (c *accessory.Container, accepted []*accessory.Accessory, autorej int, panicked bool) {
 	defer func() {
 		if r := recover(); r != nil {
 			panicked = true
@@ -69,9 +69,11 @@ func buildWord(steps []idStep, variant int) (c *accessory.Container, accepted []
 		}
 		if err := c.AddAccessory(a); err == nil {
 			accepted = append(accepted, a)
+		} else if s.Explicit == 0 {
+			autorej++ // an accessory with an automatic id was refused
 		}
 	}
-	return c, accepted, false
+	return c, accepted, autorej, false
 }
 
 func idsOf(accepted []*accessory.Accessory) ([]int, [][]int) {
@@ -99,12 +101,12 @@ func runIdsWord(b Beh, variant int) J {
 			steps = append(steps, s)
 		}
 	}
-	c, acc, p1 := buildWord(steps, variant)
-	_, acc2, p2 := buildWord(steps, variant)
+	c, acc, autorej, p1 := buildWord(steps, variant)
+	_, acc2, _, p2 := buildWord(steps, variant)
 	aids, iids := idsOf(acc)
 	aids2, iids2 := idsOf(acc2)
 	o := J{"ev": "build", "case": b.ID, "i": len(steps) - 1, "variant": variant, "aids": aids, "iids": iids, "aids2": aids2, "iids2": iids2,
-		"iids3": iids, "late": []int{1}, "panic": p1 || p2, "jsonok": false, "jaids": []int{}, "jiids": [][]int{}, "chars": []J{}, "svcsok": true}
+		"iids3": iids, "late": []int{1}, "autorej": autorej, "panic": p1 || p2, "jsonok": false, "jaids": []int{}, "jiids": [][]int{}, "chars": []J{}, "svcsok": true}
 	if c == nil {
 		return o
 	}
